@@ -142,10 +142,15 @@ class Port(Base):
             self._sport = ""
             return
 
+        operator_old = getattr(self, "_operator", "")
         self._operator = self._line__operator(items)
         items = items[1:]
-        _items: LInt = self._line__items_to_ints(items)
-        ports: LInt = self._items_to_ports(_items)
+        try:
+            _items: LInt = self._line__items_to_ints(items)
+            ports: LInt = self._items_to_ports(_items)
+        except (TypeError, ValueError):
+            self._operator = operator_old  # refused line leaves the object unchanged
+            raise
         self._items = _items
         self._ports = ports
         self._sport = h.ports_to_string(ports)
